@@ -1066,12 +1066,6 @@ func genSrvGoAway(p *prng, thorough bool, w *bufio.Writer) {
 			b = append(b, frameBytes(1, 5, sid, g.enc.block(nil, []kv{{k: ":method", v: "GET"}, {k: ":scheme", v: "https"}, {k: ":path", v: "/"}, {k: ":authority", v: "a"}}))...)
 		}
 		g.line("srv %s racega %s", g.id, hexOrDash(b))
-		if c%2 == 1 {
-			// … and afterwards the peer commits an offence of its own and leaves: the read loop's GOAWAY must get through
-			// whatever the race left behind, and ServeConn must return
-			off := [][]byte{frameBytes(8, 0, 0, u32(0)), frameBytes(6, 0, 0, []byte{1, 2, 3}), frameBytes(9, 4, g.next, nil)}[(c/2)%3]
-			g.line("srv %s racecut %s", g.id, hexOrDash(off))
-		}
 	}
 	g.line("srv %s end", g.id)
 }
